@@ -63,7 +63,7 @@ def run(ctx):
     o = state_outcomes(f, U, {I + 'data_requested': False, I + 'status_requested': False})
     o2 = state_outcomes(f, U, {I + 'data_requested': True})
     ctx.ob('C10.stall-only', 'StandardRequestHandler.unsupported-state.exit', set(o) == {None} and set(o2) == {idle}, f.state_loc[U], 'it waits for the stage and then returns to idle')
-    cl = h.drivers(I + 'claim', exact=True)
+    cl = [q.fold(h, a) for a in h.drivers(I + 'claim', exact=True)]       # `claim.eq(cond)` and `If(cond): claim.eq(1)`: one form
     ok = len(cl) == 1 and q.atoms(cl[0]) == {('0 == self.interface.setup.type', True)}
     ctx.ob('C10.claim', 'StandardRequestHandler.claim', ok, cl[0].loc if cl else None, 'claims only standard-type requests: %s' % [q.fmt(a) for a in cl])
     # every output of the handler is inside the type==STANDARD arm
@@ -72,7 +72,8 @@ def run(ctx):
     bad = [a for a in outs if ('0 == self.interface.setup.type', True) not in q.atoms(a)]
     ctx.ob('C10.claim', 'StandardRequestHandler.outputs-under-type', not bad and len(outs) > 10, bad[0].loc if bad else None, 'outputs only for standard requests')
     # (c) CLEAR_FEATURE
-    ch = q.raises(h, I + 'clear_endpoint_halt.enable')
+    HALT = q.struct_fields(h, I + 'clear_endpoint_halt', [('enable', 1), ('direction', 1), ('number', 4)])
+    ch = [q.fold(h, a) for a in HALT['enable'] if a.rhs is not None and not q.is_zero(a.rhs)]
     ctx.need(len(ch) == 1 and ch[0].state, 'clear_endpoint_halt.enable site')
     C = q.state_of(ch[0])
     STALLC = '(0 != self.interface.setup.value) | (2 != self.interface.setup.recipient)'
@@ -112,7 +113,7 @@ def run(ctx):
     ctx.ob('C10.fallback-routing', 'USBRequestHandlerMultiplexer.default-fallback', bool(sub) and sub[0].obj.clsname == 'StallOnlyRequestHandler' and not sub[0].obj.kwargs and not getattr(sub[0].obj, 'args', []),
            sub[0].loc if sub else None, 'the default fallback is an unconditional StallOnlyRequestHandler')
     so = ctx.ir('StallOnlyRequestHandler', 'usb2.request')
-    outs = [a for a in so.assigns]
+    outs = [q.fold(so, a) for a in so.assigns]
     ok = len(outs) == 1 and outs[0].lhs.canon() == I + 'handshakes_out.stall' and q.is_one(outs[0].rhs) and \
         q.atoms(outs[0]) == {(I + 'data_requested | ' + I + 'status_requested', True)}
     ctx.ob('C10.stall-only', 'StallOnlyRequestHandler', ok, outs[0].loc if outs else None, 'it only STALLs, at the data or status stage, unconditionally by default: %s' % [q.fmt(a) for a in outs])
